@@ -213,6 +213,43 @@ def _impl(tier, seed, search):
                             L.fail(f'augmented:{l}{op}={r}', f'{l} {op}= {r} gives {got_[-1]} where {l} {op} {r} gives {want_[-1]}', inp, observed=got_, required=want_)
                         elif y_ is not None and type(y_).__name__ in ('UnitQuaternion',) and any(abs(float(np.linalg.norm(np.asarray(a_, float))) - 1) > 1e-6 for a_ in y_.data):
                             L.fail(f'augmented:{l}{op}={r}:not-unit', f'{l} {op}= {r} returned a UnitQuaternion holding a quaternion that is not of unit norm', inp)
+        # scalars that are not real numbers are not operands of + and - on poses (complex, Fraction, NumPy complex)
+        import fractions
+        for c in POSE:
+            for m in (1, 2):
+                for sc_ in (1 + 2j, np.complex128(0.5 - 1j), fractions.Fraction(1, 3), np.complex64(2j)):
+                    for side, fop in (('X + s', lambda X_: X_ + sc_), ('X - s', lambda X_: X_ - sc_), ('s + X', lambda X_: sc_ + X_), ('s - X', lambda X_: sc_ - X_)):
+                        inp = dict(cls=c, op=side, scalar=repr(sc_), len=m)
+                        L.count('pose+-nonreal', key=(c, side, repr(sc_), m)); L.sample('pose+-nonreal', inp)
+                        try: got = classify(fop(mk(c, m)))
+                        except Exception: continue
+                        L.fail(f'must-raise:{c}+-nonreal-scalar', f'{side} with {type(sc_).__name__} {sc_!r} and a {c} must raise but returned {got}', inp, observed=got, required='exception')
+        # multi-valued operands of different lengths (2 against 3) never combine: every operator raises, == and != included
+        for l in LISTY:
+            for r in LISTY:
+                for op, f in list(OPS.items()) + [('==', operator.eq), ('!=', operator.ne)]:
+                    if op in ('**', '@'): continue
+                    if op in ('==', '!=') and l != r: continue
+                    if op == '+' and l == r and l in ('Twist2', 'Twist3'): continue       # (+ on the twist classes is list concatenation)
+                    for (ml, mr) in ((2, 3), (3, 2)):
+                        inp = dict(left=l, right=r, op=op, len_left=ml, len_right=mr)
+                        L.count('unequal-lengths', key=(l, r, op, ml, mr)); L.sample('unequal-lengths', inp)
+                        try: xl_, xr_ = mk(l, ml), mk(r, mr)
+                        except Exception: continue
+                        try: got = classify(f(xl_, xr_))
+                        except Exception: continue
+                        L.fail(f'must-raise:unequal-lengths:{l}{op}{r}', f'{l}[{ml}] {op} {r}[{mr}] must raise (lengths differ) but returned {got[-1]}', inp, observed=got, required='exception')
+        # the documented results of | and ^ on two lines through one point: booleans, | False and ^ True unless the directions coincide — also
+        # when the directions differ by only 1e-9 .. 1e-6 rad
+        for d_ in (1e-3, 1e-6, 3e-8, 1e-8, 1e-9):
+            for P_, w1_, w2_ in ((np.zeros(3), [1.0, 0.0, 0.0], [1.0, d_, 0.0]), (np.array([1.0, 2.0, 3.0]), [0.0, 3.0, 4.0], [0.0, 3.0, 4.0 + 5 * d_])):
+                inp = dict(point=P_, w1=w1_, w2=w2_)
+                L.count('plucker-predicates', key=(d_, tuple(P_)))
+                try: l1_, l2_ = Plucker.PointDir(P_, w1_), Plucker.PointDir(P_, w2_); par_, hit_ = l1_ | l2_, l1_ ^ l2_
+                except Exception as e:
+                    L.fail('documented:Plucker|^Plucker', f'Plucker | / ^ Plucker raised {type(e).__name__}', inp); continue
+                if not isinstance(par_, (bool, np.bool_)) or not isinstance(hit_, (bool, np.bool_)): L.fail('documented:Plucker|^Plucker', f'Plucker | Plucker / Plucker ^ Plucker returned {type(par_).__name__} / {type(hit_).__name__}, not booleans', inp)
+                elif bool(par_) or (np.allclose(P_, 0) and not bool(hit_)): L.fail('documented:Plucker|^Plucker:value', f'two lines through one point whose directions differ by about {d_:g} rad: | gives {bool(par_)} (documented: False), ^ gives {bool(hit_)} (documented: True)', inp, observed=[bool(par_), bool(hit_)])
         # a line times anything that is not a line (arrays of six numbers included) has no meaning
         for rv_ in ([1.0, 2, 3, 4, 5, 6], (1.0, 2, 3, 4, 5, 6), np.arange(6.0), np.arange(6.0).reshape(6, 1), np.arange(6.0).reshape(1, 6), 2.0, np.arange(3.0)):
             for opn_, fo_ in (('*', operator.mul), ('+', operator.add), ('-', operator.sub), ('/', operator.truediv)):
